@@ -133,7 +133,11 @@ def generic_target(prog, c, depth=0, cargs=None):
         return None
     gens = prog.facts["bodies"][c.path].get("generics") or []
     cargs = cargs if cargs is not None else list(c.args or [])
-    for blk, t, cc in hb.calls():
+    all_calls = list(hb.calls())
+    for cp, cbody in prog.bodies.items():
+        if cp.startswith(c.path + "::{closure"):
+            all_calls += list(cbody.calls())       # `.and_then(|v| T::try_from(v).ok())` inside the helper
+    for blk, t, cc in all_calls:
         if cc is None:
             continue
         if cc.local and cc.kind == "Item" and depth < 3 and cc.path != c.path and cc.path in prog.bodies:
@@ -489,8 +493,19 @@ def run(ctx, env):
                         insts.add(tuple(cc.args))
             if len(insts) == 1:
                 tmap = dict(zip(gens, insts.pop()))
+        # ... and its value parameters (`to_common(&self, names: &FieldNames<F>)` called with `&V9_FIELD_NAMES`)
+        amap = {}
+        broot = b.path.split("::{closure")[0]
+        if broot != P["fn"] and b.kind != "Closure":
+            sites = [(cb, t0) for cb in rb.values() for _, t0, cc in cb.calls()
+                     if cc is not None and cc.local and cc.path == broot and cb.path.split("::{closure")[0] != broot]
+            if len(sites) == 1:
+                cb0, t0 = sites[0]
+                amap = {i + 1: an.expand(an.op(cb0, a)) for i, a in enumerate(t0["args"])}
         for nm, o in zip(s["rv"]["fields"], s["rv"]["ops"]):
             e = an.opx(b, o)
+            if amap:
+                e = an.expand(an.interp.subst(e, amap))
             late = later_field_writes(an, b, (blk, s), nm)
             if late:
                 e = ("phi", [e] + [x[0] for x in late])
